@@ -1,11 +1,11 @@
 package main
 
 import (
-	"regexp"
-	"strconv"
-	"sort"
 	"fmt"
 	"math/rand"
+	"regexp"
+	"sort"
+	"strconv"
 
 	"veriftools/internal/vals"
 )
@@ -31,6 +31,32 @@ func streamEq(o *Out, r *rand.Rand, n int, thorough bool) {
 		for i := 0; i < len(pool); i += 3 {
 			for j := 0; j < len(pool); j += 3 {
 				pairs = append(pairs, pair{i, j})
+			}
+		}
+		// every pair with a boolean, nil, zero or empty operand (both orders): conversions decide these
+		for i, v := range pool {
+			switch x := v.(type) {
+			case nil, bool:
+			case int64:
+				if x != 0 && x != 1 {
+					continue
+				}
+			case float64:
+				if x != 0 && x != 1 {
+					continue
+				}
+			case string:
+				if x != "" && x != "true" && x != "false" && x != "1" && x != "0" {
+					continue
+				}
+			default:
+				continue
+			}
+			for j := range pool {
+				if i%3 == 0 && j%3 == 0 {
+					continue // already in the sub-pool
+				}
+				pairs = append(pairs, pair{i, j}, pair{j, i})
 			}
 		}
 		for k := 0; k < n; k++ {
